@@ -308,6 +308,12 @@ func TestVerifReplay(t *testing.T) {
 			defer func() {
 				if r := recover(); r != nil {
 					if _, ok := r.(v.AssumeFailed); ok {
+						if len(v.Failures) > 0 {
+							// the tape ends at the recorded failure; inputs drawn after it are defaults and
+							// may violate a later assumption - the failure itself did reproduce
+							fmt.Printf("REPLAY %%s DONE failures=%%q reached=%%q\n", filepath.Base(f), v.Failures, v.Reached)
+							return
+						}
 						fmt.Printf("REPLAY %%s ASSUME-FAILED\n", filepath.Base(f))
 						return
 					}
